@@ -25,13 +25,13 @@ kani_unit("air_context", "winter-air", "air/src/proof/context.rs", "kani/air_con
       "forall modulus byte strings of 1..=3 bytes: num_modulus_bits == bit length of the little-endian integer"),
     H("air_context_read_total_e3_m1", ["C06", "C12"], ["Context::read_from", "Context::write_into", "Context::lde_domain_size"],
       "forall context encodings with trace-length exponent byte 3 and a 1-byte modulus (all other header, modulus and option bytes symbolic; all truncations): read_from never panics; Ok(c) ==> trace length and LDE domain <= u32::MAX, lde_domain_size() does not overflow, re-encoding reproduces the bytes",
-      bounded="trace-length exponent byte fixed to 3, modulus length 1, no trace metadata", timeout=600),
+      bounded="trace-length exponent byte fixed to 3, modulus length 1, no trace metadata", timeout=600, tier="thorough"),
     H("air_context_read_total_e25", ["C06", "C12"], ["Context::read_from", "Context::write_into", "Context::lde_domain_size"],
       "forall context encodings with trace-length exponent byte 25 and a 8-byte modulus (all other header, modulus and option bytes symbolic; all truncations): read_from never panics; Ok(c) ==> trace length and LDE domain <= u32::MAX, lde_domain_size() does not overflow, re-encoding reproduces the bytes",
-      bounded="trace-length exponent byte fixed to 25, modulus length 8, no trace metadata", timeout=600),
+      bounded="trace-length exponent byte fixed to 25, modulus length 8, no trace metadata", timeout=600, tier="thorough"),
     H("air_context_read_total_e32", ["C06", "C12"], ["Context::read_from", "Context::write_into", "Context::lde_domain_size"],
       "forall context encodings with trace-length exponent byte 32 and a 8-byte modulus (all other header, modulus and option bytes symbolic; all truncations): read_from never panics; Ok(c) ==> trace length and LDE domain <= u32::MAX, lde_domain_size() does not overflow, re-encoding reproduces the bytes",
-      bounded="trace-length exponent byte fixed to 32, modulus length 8, no trace metadata", timeout=600),
+      bounded="trace-length exponent byte fixed to 32, modulus length 8, no trace metadata", timeout=600, tier="thorough"),
     H("air_context_read_total_e63", ["C06", "C12"], ["Context::read_from", "Context::write_into", "Context::lde_domain_size"],
       "forall context encodings with trace-length exponent byte 63 and a 8-byte modulus (all other header, modulus and option bytes symbolic; all truncations): read_from never panics; Ok(c) ==> trace length and LDE domain <= u32::MAX, lde_domain_size() does not overflow, re-encoding reproduces the bytes",
       bounded="trace-length exponent byte fixed to 63, modulus length 8, no trace metadata", timeout=600),
@@ -95,7 +95,7 @@ kani_unit("air_parsers", "winter-air", "air/src/proof/mod.rs", "kani/air_parsers
     H("air_parsers_canary_must_fail", ["C06", "C03", "C12"], [], "false claim: Table::from_bytes always fails", canary=True),
 ], modname="verif_kani_parsers")
 
-native_unit("security_native", "winter-air", "air", "native/security_bounded.rs", ["C18", "C12"],
+native_unit("security_native", "winter-air", "air", "native/security_bounded.rs", ["C18"],
             ["proof::get_proven_security", "proof::proven_security_protocol_for_m", "proof::get_conjectured_security", "Proof::security_level", "Hasher::COLLISION_RESISTANCE of the six hashers", "ProofOptions::new"],
             "ProofOptions::new accepts exactly the documented parameter ranges and stores what it accepts unchanged; the collision-resistance constant of every hasher is the birthday bound of its digest (128 / 96 / 4 * modulus bits / 2); the proven estimate EQUALS the documented formula (eprint 2022/1216 Theorem 8 / eq. 7 as laid out in the source comments, written independently in the check with the same floating-point operations: the optimum over the proximity parameters 3 <= m < m_max, every term truncated before the minimum, capped by the collision resistance); neither the proven nor the conjectured estimate decreases when the number of queries, the grinding factor, the extension degree or the hash function's collision resistance grows (everything else fixed), and neither exceeds the collision resistance",
             "NATIVE EXECUTION, not a proof (floating-point code: CBMC has no faithful libm): f62 / f64 / f128 x extension degrees x trace lengths 2^3, 2^8, 2^12, 2^16, 2^20 x blowup 2, 4, 8, 16, 64 x folding 2, 4, 8, 16 x remainder degree 0, 7, 31 x queries 1..=255 x grinding 0..=32 x collision resistance 96 / 128; formula comparison: trace lengths 2^3 .. 2^7, 2^10, 2^16, 2^20 x blowup 2 .. 64 x 70 query counts x grinding 0, 10, 32 x both collision resistances",
